@@ -117,6 +117,8 @@ def run(chk, replay=None):
                 w = inp.worlds[i]
                 return ['parse %d %d %s/origin.cellml' % (slots['parser'], mslot, w), 'clearlib %d' % slots['importer'], 'resolve %d %d %s/' % (slots['importer'], mslot, w),
                         'flatten %d %d %d' % (slots['importer'], mslot, mslot + 1)], ['p1', 'a1', 'o'], 3
+            if kind == 'analysenull':
+                return ['analysenull %d' % slots['analyser']], ['o'], 0
             if shared is not None and i in shared:
                 pre, sym, mslot = [], [], shared[i]
             else:
@@ -144,9 +146,11 @@ def run(chk, replay=None):
                 return pre + ['analysex %d %d %s %s' % (slots['analyser'], mslot, cv[0], cv[1]), 'generate %d %d %s' % (slots['generator'], slots['analyser'], 'C')], sym + ['a1' if d['math'] else 'a0', 'o'], n0 + 1
             raise ValueError(kind)
         def random_step():
-            kind = rng.choice(['parse', 'parse', 'parsep', 'print', 'print', 'validate', 'validate', 'analyse', 'analyse', 'generate', 'generate', 'generatex', 'generatex', 'flatten', 'eqcode', 'eqcode', 'eqcodepy'])
+            kind = rng.choice(['parse', 'parse', 'parsep', 'print', 'print', 'validate', 'validate', 'analyse', 'analyse', 'generate', 'generate', 'generatex', 'generatex', 'flatten', 'eqcode', 'eqcode', 'eqcodepy', 'analysenull'])
             if kind == 'flatten':
                 return kind, rng.randrange(len(inp.worlds))
+            if kind == 'analysenull':
+                return kind, 0
             pool = [k for k, d in enumerate(inp.docs) if (kind != 'parse' or not d['permissive']) and (kind not in ('analyse', 'generate', 'generatex', 'eqcode', 'eqcodepy') or d['kind'] in ('system', 'doc', 'invalid')) and (kind != 'generatex' or d['kind'] == 'system')]
             return kind, rng.choice(pool)
         news = lambda base: ['new %s %d' % (s, base) for s in SERVICES]
